@@ -147,7 +147,9 @@ def pvl_flavor(
         try:
             pvl.dumps(some_pvl, **decenc)
             encodes = True
-        except (LexerError, ParseError, ValueError) as err:
+        except (LexerError, ParseError, ValueError, TypeError) as err:
+            # The encoders refuse what they cannot write with either a
+            # ValueError or a TypeError ("... is not serializable").
             logging.error(f"{dialect} encode error {filename} {err}")
             encodes = False
     except (LexerError, ParseError) as err:
